@@ -65,8 +65,9 @@ def gen_prog(r, big=False):
             else:
                 ops.append("sleep %d" % r.choice([10, 1000, 1500000]))
         lines.append("thread T%d %s" % (ti, " ; ".join(ops)))
-    if r.random() < 0.25:
-        lines.append("srcfail %d %s" % (r.randint(1, 6), r.choice(["short", "fail"])))
+    if r.random() < 0.35:
+        # key 0 = the first source read that reaches end-of-file (a short count there is still a short read: seeded C17-m4)
+        lines.append("srcfail %d %s" % (r.choice([0, 0, r.randint(1, 6)]), r.choice(["short", "short", "fail"])))
     return lines
 
 
